@@ -241,4 +241,234 @@ def HCache.write (d : Disk) (c : HCache) (e : Entry) : Disk × HCache :=
   let n := (get f c.node).getD []
   (set d c.path (set f c.node (n ++ [e])), { c with index := c.index ++ [e.input] })
 
+/-! ### Instance 1': the *life* of a `JSONGrammar` — pickled at any moment
+
+`Grammar` above is the definition of a grammar at one instant.  The real object also holds what it built
+lazily from an *earlier* definition: the schema dict `__schema` (built by the `schema` property, i.e. by
+any `validate`, hence by any execution of a discipline) and the compiled `__validator`; and the schema
+builder has a `required` set of its own.  Editing the elements resets the two lazily built objects
+(`__init_dependencies`); editing the required names or the defaults does **not**.  `__getstate__`
+pickles the cached schema dict, `__setstate__` rebuilds the elements from it.  The model keeps these
+three members so that "state = function of the current grammar" is a theorem and not a modelling choice. -/
+
+/-- `d.pop(k, None)` -/
+def erase {α : Type} (d : List (String × α)) (a : String) : List (String × α) :=
+  d.filter (fun kv => kv.1 != a)
+
+/-- `RequiredNames.add` (a set: no duplicate). -/
+def radd (l : List String) (n : String) : List String := if l.contains n then l else l ++ [n]
+
+/-- `RequiredNames.discard` -/
+def rdel (l : List String) (n : String) : List String := l.filter (fun m => m != n)
+
+/-- The dict `__schema`: its `properties` and its `required` entry *as last written*. -/
+structure GSchema where
+  props : List (String × Nat)
+  req : List String
+  deriving DecidableEq, Repr
+
+structure JG where
+  g : Grammar                               -- builder properties, `_required_names`, `_defaults`, `to_namespaced`
+  breq : List String                        -- the schema builder's own `required`
+  cache : Option GSchema                    -- `__schema` (`none` = `{}`)
+  valid : Option (List (String × Nat))      -- `__validator`: the properties it was compiled from (`none` = `None`)
+  deriving DecidableEq, Repr
+
+def JG.fresh : JG := ⟨⟨[], [], [], []⟩, [], none, none⟩
+
+/-- `__init_dependencies` -/
+def JG.reset (j : JG) : JG := { j with cache := none, valid := none }
+
+/-- The `schema` property: `if not self.__schema: self.__schema = builder.to_schema()`, then
+    `__set_required_names(self.__schema)` writes the *current* required names into the cached dict. -/
+def JG.schemaProp (j : JG) : JG :=
+  let c := j.cache.getD ⟨j.g.props, j.breq⟩
+  { j with cache := some { c with req := j.g.required } }
+
+/-- `builder.required.clear()` -/
+def clearReq (_ : List String) : List String := []
+
+/-- What pickle receives: `dict(self.__dict__)` minus validator and builder, defaults as a raw dict. -/
+structure JState where
+  schema : GSchema                   -- `_JSONGrammar__schema`
+  required : List String             -- `_required_names`
+  rawDefaults : List (String × Rat)
+  toNs : List (String × String)
+  deriving DecidableEq, Repr
+
+/-- `__getstate__` (it calls `self.schema`: the original's cache is filled as a side effect). -/
+def JG.getstate (j : JG) : JState × JG :=
+  let j1 := j.schemaProp
+  (⟨j1.cache.getD ⟨j1.g.props, j1.g.required⟩, j1.g.required, j1.g.defaults, j1.g.toNs⟩, j1)
+
+/-- `__setstate__`: `clear()`; `__dict__.update(state)`; `builder.add_schema(state schema, True)` (the fresh
+    builder takes the properties *and* the `required` entry of the schema); `builder.required.clear()`;
+    `_defaults.update(raw)`. -/
+def JG.setstate (st : JState) : Option JG :=
+  (defaultsUpdate st.schema.props [] st.rawDefaults).map
+    (fun d => ⟨⟨st.schema.props, st.required, d, st.toNs⟩, clearReq st.schema.req, some st.schema, none⟩)
+
+/-- JSON type code `t` (index in array, number, integer, string, boolean, object, null, any) accepts a
+    datum of kind `k` (same codes; `number` accepts an integer). -/
+def accepts (t k : Nat) : Bool := t == 7 || t == k || (t == 1 && k == 2)
+
+inductive GOp where
+  | names (ns : List String)                 -- `update_from_names(ns)`
+  | types (n : String) (t : Nat)             -- `update_from_types({n: t})`
+  | reqAdd (n : String)                      -- `required_names.add(n)`
+  | reqDiscard (n : String)                  -- `required_names.discard(n)` / `.remove(n)`
+  | setDefault (n : String) (v : Rat)        -- `defaults[n] = v`
+  | popDefault (n : String)                  -- `defaults.pop(n, None)`
+  | del (n : String)                         -- `del grammar[n]`
+  | rename (a b : String)                    -- `rename_element(a, b)`
+  | restrict (ns : List String)              -- `restrict_to(ns)`
+  | addNs (n ns : String)                    -- `add_namespace(n, ns)`
+  | clear                                    -- `clear()`
+  | schema                                   -- read the `schema` property
+  | validate (data : List (String × Nat))    -- `validate(data)`; data: name ↦ kind of the value
+  | pickle                                   -- go on with `pickle.loads(pickle.dumps(grammar))`
+  deriving DecidableEq, Repr
+
+inductive GOut where
+  | ok
+  | keyError
+  | valueError
+  | verdict (b : Bool)
+  | schema (s : GSchema)
+  deriving DecidableEq, Repr
+
+def hasSep (n : String) : Bool := n.toList.contains ':'
+
+/-- `rename_element` on the definition: `properties[b] = properties.pop(a)`; required: remove/add;
+    `v = defaults.pop(a, None); if v is not None: defaults[b] = v`. -/
+def renameG (g : Grammar) (a b : String) : Grammar :=
+  { g with
+    props := match get g.props a with
+      | none => g.props
+      | some t => set (erase g.props a) b t
+    required := if g.required.contains a then radd (rdel g.required a) b else g.required
+    defaults := match get g.defaults a with
+      | none => g.defaults
+      | some v => set (erase g.defaults a) b v }
+
+/-- The compiled validator on one property: an absent name is fine, a present one must have the type. -/
+def dataOk (data : List (String × Nat)) (p : String × Nat) : Bool :=
+  match get data p.1 with
+  | none => true
+  | some k => accepts p.2 k
+
+/-- `validate`: the required names are checked by `BaseGrammar.validate`, the types by the compiled
+    validator, created on demand from (a copy of) the `schema` property. -/
+def JG.validate (j : JG) (data : List (String × Nat)) : Bool × JG :=
+  if j.g.required.any (fun r => !(keys data).contains r) then (false, j)
+  else
+    let j1 : JG := match j.valid with
+      | some _ => j
+      | none =>
+        let j2 := j.schemaProp
+        { j2 with valid := some ((j2.cache.map GSchema.props).getD j2.g.props) }
+    ((j1.valid.getD j1.g.props).all (dataOk data), j1)
+
+def JG.step (j : JG) : GOp → JG × GOut
+  | .names ns =>
+    if ns.isEmpty then (j, .ok) else
+    let props := ns.foldl (fun p n => set p n 0) j.g.props
+    (({ j with g := { j.g with props := props, required := ns.foldl radd j.g.required },
+               breq := clearReq j.breq }).reset, .ok)
+  | .types n t =>
+    (({ j with g := { j.g with props := set j.g.props n t, required := radd j.g.required n } }).reset, .ok)
+  | .reqAdd n =>
+    if (keys j.g.props).contains n then ({ j with g := { j.g with required := radd j.g.required n } }, .ok)
+    else (j, .keyError)
+  | .reqDiscard n => ({ j with g := { j.g with required := rdel j.g.required n } }, .ok)
+  | .setDefault n v =>
+    if (keys j.g.props).contains n then ({ j with g := { j.g with defaults := set j.g.defaults n v } }, .ok)
+    else (j, .keyError)
+  | .popDefault n => ({ j with g := { j.g with defaults := erase j.g.defaults n } }, .ok)
+  | .del n =>
+    if (keys j.g.props).contains n then
+      (({ j with g := { j.g with props := erase j.g.props n, required := rdel j.g.required n,
+                                 defaults := erase j.g.defaults n } }).reset, .ok)
+    else (j, .keyError)
+  | .rename a b =>
+    if (keys j.g.props).contains a then (({ j with g := renameG j.g a b }).reset, .ok) else (j, .keyError)
+  | .restrict ns =>
+    if ns.all (fun n => (keys j.g.props).contains n) then
+      (({ j with g := { j.g with props := j.g.props.filter (fun kv => ns.contains kv.1),
+                                 required := j.g.required.filter (fun n => ns.contains n),
+                                 defaults := j.g.defaults.filter (fun kv => ns.contains kv.1) } }).reset, .ok)
+    else (j, .keyError)
+  | .addNs n ns =>
+    if !(keys j.g.props).contains n then (j, .keyError)
+    else if hasSep n then (j, .valueError)
+    else
+      let g1 := renameG j.g n (ns ++ ":" ++ n)
+      (({ j with g := { g1 with toNs := set g1.toNs n (ns ++ ":" ++ n) } }).reset, .ok)
+  | .clear => (JG.fresh, .ok)
+  | .schema =>
+    let j1 := j.schemaProp
+    (j1, .schema (j1.cache.getD ⟨j1.g.props, j1.g.required⟩))
+  | .validate data => let r := j.validate data; (r.2, .verdict r.1)
+  | .pickle =>
+    let s := j.getstate
+    match JG.setstate s.1 with
+    | some r => (r, .ok)
+    | none => (s.2, .keyError)
+
+/-- A life: the grammar after the operations, and what each of them returned. -/
+def JG.run : JG → List GOp → JG × List GOut
+  | j, [] => (j, [])
+  | j, op :: ops =>
+    let r := j.step op
+    let rest := JG.run r.1 ops
+    (rest.1, r.2 :: rest.2)
+
+/-! ### Instance 2': the life of an `HDF5Cache` — settings changed after construction, look-ups -/
+
+def rabs (r : Rat) : Rat := if r < 0 then -r else r
+
+/-- `compare_dict_of_arrays(query, cached, tol)` for one number: `|cached - x| <= tol * (1 + |x|)`. -/
+def within (tol x cached : Rat) : Bool := decide (rabs (cached - x) ≤ tol * (1 + rabs x))
+
+/-- `cache[x]`: with a zero tolerance the hash of `x` is searched in the in-memory index; otherwise the
+    indexed entries are scanned with the *current* tolerance; the data are read from the file. -/
+def HCache.lookup (d : Disk) (c : HCache) (x : Rat) : Option Rat :=
+  let hit : Option Rat := if c.tol = 0 then c.index.find? (fun i => i == x) else c.index.find? (fun i => within c.tol x i)
+  hit.bind (fun i => ((c.read d).find? (fun e => e.input == i)).map Entry.output)
+
+/-- A cache together with the arguments its `__init__` received (kept only to *state* that the pickled
+    state is not made of them). -/
+structure HLife where
+  init : HState
+  cache : HCache
+  deriving DecidableEq, Repr
+
+def HLife.create (d : Disk) (st : HState) : HLife := ⟨st, HCache.attach d st⟩
+
+inductive HOp where
+  | setTol (t : Rat)        -- `cache.tolerance = t` (`ValueError` when negative)
+  | setName (n : String)    -- `cache.name = n`
+  | write (e : Entry)       -- `cache.cache_outputs(...)`
+  | lookup (x : Rat)        -- `cache[x]`
+  deriving DecidableEq, Repr
+
+inductive HOut where
+  | ok
+  | valueError
+  | found (o : Option Rat)
+  deriving DecidableEq, Repr
+
+def HLife.step (dl : Disk × HLife) : HOp → (Disk × HLife) × HOut
+  | .setTol t => if t < 0 then (dl, .valueError) else ((dl.1, { dl.2 with cache := { dl.2.cache with tol := t } }), .ok)
+  | .setName n => ((dl.1, { dl.2 with cache := { dl.2.cache with name := n } }), .ok)
+  | .write e => let r := dl.2.cache.write dl.1 e; ((r.1, { dl.2 with cache := r.2 }), .ok)
+  | .lookup x => (dl, .found (dl.2.cache.lookup dl.1 x))
+
+def HLife.run : Disk × HLife → List HOp → (Disk × HLife) × List HOut
+  | dl, [] => (dl, [])
+  | dl, op :: ops =>
+    let r := HLife.step dl op
+    let rest := HLife.run r.1 ops
+    (rest.1, r.2 :: rest.2)
+
 end GV.C20
